@@ -243,6 +243,9 @@ func (p *Parser) led(tokenType tokType, node ASTNode) (ASTNode, error) {
 		right, err := p.parseExpression(bindingPowers[tAnd])
 		return ASTNode{nodeType: ASTAndExpression, children: []ASTNode{node, right}}, err
 	case tLparen:
+		if node.nodeType != ASTField || p.lookaheadToken(-2).tokenType != tUnquotedIdentifier {
+			return ASTNode{}, p.syntaxError("Invalid function call: expected an unquoted identifier before tLparen")
+		}
 		name := node.value
 		var args []ASTNode
 		for p.current() != tRparen {
